@@ -199,7 +199,7 @@ pub fn suite_c01(ctx: &mut Ctx) {
     }
     // differential screening (selection only; see screen.rs)
     for ty in [&P16T, &P32T] {
-        let k = ctx.q(1 << 26, 1 << 31);
+        let k = ctx.q(1 << 26, 1 << 30);
         crate::screen::screen_fixed(ctx, ty, &crate::screen::ARITH, k);
     }
     // P16E1: a coset of all 2^32 operand pairs (thorough: every pair) against the f64 route
@@ -373,7 +373,7 @@ pub fn suite_c05(ctx: &mut Ctx) {
     }
     // differential screening (selection only; see screen.rs)
     for ty in [&P16T, &P32T] {
-        let k = ctx.q(1 << 26, 1 << 31);
+        let k = ctx.q(1 << 26, 1 << 30);
         crate::screen::screen_fixed(ctx, ty, &crate::screen::FUSED, k);
     }
 }
